@@ -102,6 +102,12 @@ def build_lib(variant="plain"):
         sh([sys.executable, os.path.join(ROOT, "extract", "kinds.py"), os.path.join(REPO, "include/utap/common.h"),
             os.path.join(gen, "kind_names.inc.new")], timeout=60)
         _replace_if_changed(os.path.join(gen, "kind_names.inc.new"), os.path.join(gen, "kind_names.inc"))
+        sh([sys.executable, os.path.join(ROOT, "extract", "gen_tracebuilder.py"), os.path.join(REPO, "include/utap/builder.h"),
+            os.path.join(gen, "TraceBuilder.hpp.new")], timeout=60)
+        _replace_if_changed(os.path.join(gen, "TraceBuilder.hpp.new"), os.path.join(gen, "TraceBuilder.hpp"))
+        sh([sys.executable, os.path.join(ROOT, "extract", "lr_tables.py"), os.path.join(REPO, "src/parser.y"), gen], timeout=120)
+        sh([sys.executable, os.path.join(ROOT, "extract", "lexemes.py"), os.path.join(REPO, "src/lexer.l"),
+            os.path.join(REPO, "src/keywords.cpp"), os.path.join(gen, "lexemes.json")], timeout=60)
         log("lib[%s] up to date in %.1fs" % (variant, time.time() - t0))
         return lib
 
@@ -357,9 +363,9 @@ def read_ndjson(path):
 
 # --------------------------------------------------------------------------- model_run jobs
 
-def run_jobs(jobs, run_dir, variant="asan", shards=None, timeout=3000, name="jobs"):
+def run_jobs(jobs, run_dir, variant="asan", shards=None, timeout=3000, name="jobs", harness="model_run"):
     """run model_run over jobs (list of dicts with unique 'id') in parallel shards; returns {id: result}"""
-    exe = build_harness("model_run", variant)
+    exe = build_harness(harness, variant)
     shards = min(shards or NCPU, max(1, len(jobs)))
     procs = []
     env = dict(os.environ)
